@@ -22,9 +22,9 @@ base=set(json.load(open('/root/.vp/BASELINE.json'))['stable_pass'])
 print(len(base-p))")
 cp /tmp/demo_$ID.go.txt $DEMO
 [ -n "$STUB" ] && cp $STUB internal/pkg/midi/driver/alsa/alsa.go
-go test $DEMOFLAGS -vet=off -count=1 -run 'Demo' $PKG > /tmp/demo_with_$ID.log 2>&1; RC_WITH=$?
+go test $DEMOFLAGS -vet=off -count=1 -run "${DEMORUN:-Demo}" $PKG > /tmp/demo_with_$ID.log 2>&1; RC_WITH=$?
 git apply -R mutation.diff
-go test $DEMOFLAGS -vet=off -count=1 -run 'Demo' $PKG > /tmp/demo_without_$ID.log 2>&1; RC_WITHOUT=$?
+go test $DEMOFLAGS -vet=off -count=1 -run "${DEMORUN:-Demo}" $PKG > /tmp/demo_without_$ID.log 2>&1; RC_WITHOUT=$?
 [ -n "$STUB" ] && git checkout internal/pkg/midi/driver/alsa/alsa.go
 git apply mutation.diff
 echo "$ID: baseline tests missing with mutation=$WITH  demo rc with=$RC_WITH without=$RC_WITHOUT  (demo: $DEMO)"
